@@ -3,7 +3,7 @@
 use anyhow::{Context, Result};
 use clap::Subcommand;
 use std::fs::File;
-use std::io::{BufReader, BufWriter};
+use std::io::{BufReader, BufWriter, Write};
 use std::path::PathBuf;
 
 use wow_wdt::{
@@ -373,8 +373,12 @@ fn execute_convert(
     convert_wdt(&mut wdt, from_version, to_version).context("Conversion failed")?;
 
     let output_file = File::create(&output).context("Failed to create output file")?;
-    let mut writer = WdtWriter::new(BufWriter::new(output_file));
-    writer.write(&wdt).context("Failed to write output file")?;
+    let mut buffered = BufWriter::new(output_file);
+    WdtWriter::new(&mut buffered)
+        .write(&wdt)
+        .context("Failed to write output file")?;
+    // A BufWriter dropped unflushed discards the error of its last write
+    buffered.flush().context("Failed to write output file")?;
 
     println!("{} Conversion complete!", style("✓").green());
 
